@@ -39,6 +39,25 @@ Theorem C17_log_shows_receptions : forall p s i r c ch, reach p s ->
 Proof. exact log_shows_receptions. Qed.
 Print Assumptions C17_log_shows_receptions.
 
+(* select, for EVERY clause order and with timeout clauses anywhere among the channel clauses: the item is taken
+   from the channel of the chosen clause, delivered to that very clause (its log entry names the clause's channel),
+   no other channel changes; a timeout clause whose timer has not fired never runs *)
+Theorem C17_select_delivers_to_its_clause : forall s i k s' r f rest cs ops',
+  nth_error (rs s) i = Some r -> stk r = f :: rest -> unw r = false -> ext r = None -> fops f = OSelect cs :: ops' ->
+  step s i k = Some s' ->
+  exists c ch ch' v r',
+    nth_error cs k = Some (Some c) /\ nth_error (chs s) c = Some ch /\ take ch i = Some (v, ch') /\
+    chs s' = upd (chs s) c ch' /\ nth_error (rs s') i = Some r' /\
+    log r' = log r ++ [EvPop c v] /\ got r' = v /\ stk r' = mkF (fk f) ops' :: rest.
+Proof. exact select_delivers_to_its_clause. Qed.
+Print Assumptions C17_select_delivers_to_its_clause.
+
+Theorem C17_select_never_runs_timeout_clause : forall s i k r f rest cs ops',
+  nth_error (rs s) i = Some r -> stk r = f :: rest -> unw r = false -> ext r = None -> fops f = OSelect cs :: ops' ->
+  nth_error cs k = Some None -> step s i k = None.
+Proof. exact select_never_runs_timeout_clause. Qed.
+Print Assumptions C17_select_never_runs_timeout_clause.
+
 (* (3) "code inside with-mutex-lock on the same mutex never overlaps" *)
 Theorem C17_mutual_exclusion : forall p s m i j, reach p s -> inside s i m -> inside s j m -> i = j.
 Proof. exact mutual_exclusion. Qed.
